@@ -65,7 +65,17 @@ def run(ctx):
             for val in pair:
                 xs = list(s["xs"]); xs[2 * n - 2] = val
                 extra.append(dict(s, xs=xs, req=S.sample_request(s["case"], s["routing"], s["table"], xs), kind="lambda_pair"))
-    ss = ss + extra
+    # consecutive calls on DIFFERENT samplers with a bit-identical lambda coordinate (and other shared coordinates)
+    cross = []
+    for a, b in zip(ss[: (10 if ctx.quick else 40)], ss[3: (13 if ctx.quick else 43)]):
+        if a["case"] is b["case"]:
+            continue
+        lam = rng.choice([0.3, 0.5, 0.9, 1e-3])
+        for s2 in (a, b, a):
+            n = len(s2["case"]["edges"])
+            xs = list(s2["xs"]); xs[2 * n - 2] = lam
+            cross.append(dict(s2, xs=xs, req=S.sample_request(s2["case"], s2["routing"], s2["table"], xs), kind="cross_sampler_same_lambda"))
+    ss = ss + extra + cross
     reqs = [s["req"] for s in ss]
     fwd = run_harness(reqs + reqs)                 # every request twice in one process (after all the others)
     rev = run_harness(list(reversed(reqs)))        # another process, reverse order
